@@ -91,6 +91,8 @@ class Ev:
         fn = self.fn
         if self.root(n) == 3:
             return ("bits",)
+        if n in counter_locals(fn):
+            return ("b",)                                   # `while b < bits { ..; b += 1 }` (mirlib.counter_locals)
         ds = fn.defs().get(n, [])
         ds = [d for d in ds if d[2] in fn.cfg()]
         if any(d[4]["proj"] for d in ds) or not ds:
